@@ -8,6 +8,8 @@
 -/
 import VarlinkProofs.Lemmas.Stub
 import VarlinkProofs.Lemmas.Basic
+import Varlink.Extracted.Code
+import Varlink.ExpectedCode
 namespace Varlink.C08
 open Varlink Varlink.Idl Varlink.Gen Varlink.Stub
 
@@ -237,5 +239,11 @@ theorem error_roundtrip (t : Idl) (hal : AliasesOk (aliasesOf t)) (f : Nat) (e :
     simp only [joinDot] at hl h1 h2 ⊢
     rw [hk] at hl
     simp [hl, h1, h2, hfind, hdec]
+
+/-- **Tie to the source**: the declarations of /repo that this property's model transliterates
+    (`Extracted.codeNames_C08`) have, in the current working tree, exactly the fingerprints of the code the
+    model was validated against. Any change to them breaks this obligation; the check then searches the
+    correspondence streams for an input on which the changed code violates the property. -/
+theorem modelled_code_unchanged : Varlink.Extracted.code_C08 = Varlink.ExpectedCode.code_C08 := by decide
 
 end Varlink.C08
